@@ -275,20 +275,19 @@ func (c *Collector) evictStale() {
 	c.rwmu.Lock()
 	defer c.rwmu.Unlock()
 
-	// halve counter
+	// halve the stale counters and drop those that reach zero. The hot keys
+	// returned earlier may still be in use by readers, so neither the slice
+	// nor the counters are modified in place.
 	curTimeInMinute := nowInMinute()
+	keys := make([]HotKey, 0, len(c.keys))
 	for _, key := range c.keys {
-		counter := key.Counter
+		counter := new(logrithmCounter)
+		*counter = *key.Counter
 		if curTimeInMinute > counter.LastUpdateTimeInMinute() {
 			counter.Halve()
 		}
-	}
-
-	// remove stale
-	keys := make([]HotKey, 0, len(c.keys))
-	for _, key := range c.keys {
-		if key.Counter.Value() != 0 {
-			keys = append(keys, key)
+		if counter.Value() != 0 {
+			keys = append(keys, HotKey{Name: key.Name, Counter: counter})
 		}
 	}
 	c.keys = keys
